@@ -7,7 +7,8 @@ sqrt(chi2 / n / sqrt((r - 1)(c - 1))) and 0 when a dimension is 1, with chi2 / n
 from z3 import And, Or, Not, Implies, If, BoolVal, RealVal, Function, RealSort, Const
 from pyvc.types import *
 from pyvc.engine import FunctionSpec, str_const
-from pyvc.exprs import OPQ, OpqReal, NumpyDiv
+from pyvc.exprs import OPQ, OpqReal, NumpyDiv, opaque_apply
+from z3 import IntVal
 
 FILE = 'AutoCarver/selectors/measures/qualitative_measures.py'
 DVR = TDict(VAL, REAL); RET = TTuple([BOOL, DVR])
@@ -21,7 +22,9 @@ OPAQUE = ('crosstab', 'chi2_contingency', 'notna')
 def res_dict(r): return RET.proj(1, r)
 SPECS['chi2_measure'] = FunctionSpec(qual='chi2_measure', file=FILE, params=[('x', OPQ), ('y', OPQ), ('thresh_chi2', REAL), ('kwargs', OPQ)], defaults={'thresh_chi2': RealVal(0), 'kwargs': Const('no_kwargs', OPQ.sort())},
     returns=RET, opaque_functions=OPAQUE, locals={'measurement': DVR},
-    ensures=lambda o, n, r, loc: [('statistic_recorded', And(DVR.has(res_dict(r), CHI2), DVR.get(res_dict(r), CHI2) == OpqReal(loc['chi2'])) if loc is not None else DVR.has(res_dict(r), CHI2))])
+    ensures=lambda o, n, r, loc: [('statistic_recorded', And(DVR.has(res_dict(r), CHI2), DVR.get(res_dict(r), CHI2) == OpqReal(loc['chi2'])) if loc is not None else DVR.has(res_dict(r), CHI2))] +
+        ([('statistic_is_scipy_chi2_contingency_of_the_crosstab_with_default_arguments',          # (Yates' continuity correction on 2x2 tables included: the scipy default)
+           loc['chi2'] == opaque_apply('getitem', [opaque_apply('fn_chi2_contingency_', [opaque_apply('fn_crosstab_', [o['x'], o['y']])]), opaque_apply('box_Int', [IntVal(0)])]))] if loc is not None else []))
 
 def tsch_post(o, n, r, loc):
     if loc is None: return [('measure_recorded', DVR.has(res_dict(r), TSCH))]
